@@ -47,6 +47,7 @@ class WriterFacts:
         it2 = Interp(repo)
         try:
             self.ci_effs, rv = it2.run(self.ci, {})
+            self.ci_it = it2
         except Unknown as u:
             raise AnalysisError('%s.create_instance outside the interpreted fragment: %s' % (cls, u))
         self.text = rv
@@ -56,10 +57,21 @@ class WriterFacts:
     def params_in(self, t):
         """create_instance parameters mentioned by a term (loop-variable domains are not followed)"""
         out = set()
+        seen_loops = set()
         def go(x):
             if not isinstance(x, tuple) or not x:
                 return
             if isinstance(x[0], str):
+                if x[0] in ('carried', 'prefix', 'while') or (x[0] == 'bvar' and x[3][0] == 'while'):
+                    # a value that depends on how often / how far a loop ran: it depends on whatever the loop's condition reads
+                    lid = x[2] if x[0] in ('carried', 'prefix') else (x[1] if x[0] == 'while' else x[3][1])
+                    info = getattr(getattr(self, 'ci_it', None), 'loopinfo', {}).get(lid)
+                    if info is not None and lid not in seen_loops:
+                        seen_loops.add(lid)
+                        if getattr(info, 'cond', None) is not None:
+                            go(info.cond)
+                        for v in getattr(info, 'pre', {}).values():
+                            go(v)
                 if x[0] == 'bvar':
                     return
                 if x[0] == 'sym' and x[1] in self.actual:
